@@ -301,6 +301,16 @@ Fixpoint cf (f : fmt) : N :=
   | FTag w _ body => N.of_nat w + cf body
   end.
 
+(* descriptors whose serializer writes everything the decoder reads *)
+Fixpoint nodrop (f : fmt) : bool :=
+  match f with
+  | FDropVarUint => false
+  | FSeq a b | FCase _ _ a b | FCaseGe _ _ a b => nodrop a && nodrop b
+  | FCounted _ _ _ _ _ e => nodrop e
+  | FTag _ _ body => nodrop body
+  | _ => true
+  end.
+
 (* helpers for writing descriptors *)
 Fixpoint fseq (l : list fmt) : fmt :=
   match l with
